@@ -548,6 +548,18 @@ func (cx *Ctx) c07ShrinkHistory(job *spec.Job) {
 	}
 	deadline := time.Now().Add(40 * time.Second)
 	calls = ddmin(calls, func(cs []spec.Call) bool { v, _, _, _ := cx.historyViolates(cs); return v }, deadline)
+	// then each remaining call's graph and options
+	for i := range calls {
+		if time.Now().After(deadline.Add(40 * time.Second)) {
+			break
+		}
+		calls[i] = shrinkCall(calls[i], func(t spec.Call) bool {
+			cs := append([]spec.Call{}, calls...)
+			cs[i] = t
+			v, _, _, _ := cx.historyViolates(cs)
+			return v
+		}, 15*time.Second)
+	}
 	v, rf, key, what = cx.historyViolates(calls)
 	if v {
 		cx.report(key, what, rf)
